@@ -2,7 +2,7 @@
    driver) -> one output line.  All canonical printing is done here, in Coq, so that the OCaml
    side is a trivial read/print loop. *)
 From VF Require Import Base.Prelude Model.Reader Model.InfoModelDefs.
-From VF Require Import Base.IPText Model.Layout Model.JsonPieces Model.Nf5 Model.Flow Model.Cache Model.Ipfix Model.Nf9 Model.MarshalFlow Base.Json Model.Packet Model.Sflow Model.CacheFile Model.Options Model.Mirror.
+From VF Require Import Base.IPText Model.Layout Model.JsonPieces Model.Nf5 Model.Flow Model.Cache Model.Ipfix Model.Nf9 Model.MarshalFlow Base.Json Model.Packet Model.Sflow Model.CacheFile Model.Options Model.Mirror Model.Producer.
 From VF Require Gen.InfoModel Gen.Layouts Gen.JsonPieces Gen.Options.
 
 Inductive tok := TBytes (b : bytes) | TInt (z : Z) | TSym (s : bytes).
@@ -420,6 +420,13 @@ Definition cmd_mirror (args : list tok) : bytes :=
   | _ => s2l "BADARGS"
   end.
 
+(* ---------- producer (C14) ---------- *)
+(* producer <proto> <retry> <gap> F ... M <msg>...  -> the lines the sink receives when nothing fails *)
+Fixpoint bytes_of_toks (ts : list tok) : list bytes := match ts with TBytes b :: r => b :: bytes_of_toks r | _ :: r => bytes_of_toks r | [] => [] end.
+Definition cmd_producer (args : list tok) : bytes :=
+  let '(_, ms) := split_at_sym "M" args in
+  s2l "LINES " ++ intercalate sp (map show_bytes (fst (send_all 2 (bytes_of_toks ms) []))).
+
 Definition dispatch (cmd : bytes) (args : list tok) : bytes :=
   if list_eqb cmd (s2l "reader") then cmd_reader args
   else if list_eqb cmd (s2l "infomodel") then cmd_infomodel args
@@ -434,5 +441,6 @@ Definition dispatch (cmd : bytes) (args : list tok) : bytes :=
   else if list_eqb cmd (s2l "options") then cmd_options args
   else if list_eqb cmd (s2l "pipe") then cmd_pipe args
   else if list_eqb cmd (s2l "mirror") then cmd_mirror args
+  else if list_eqb cmd (s2l "producer") then cmd_producer args
   else if list_eqb cmd (s2l "nf9h-abs") then cmd_nf9h_abs args
   else s2l "UNKNOWN-COMMAND".
